@@ -96,7 +96,10 @@ def run(tier, seed, replay=None):
     ndet = 0
     if not replay:
         far = 4.0 * tc.R
-        base = tc.scenario("det", [tc.cell(i, i * far, level=(2 if i % 2 else 1), growth=2e-11) for i in range(5)], [], T_ns=2500 if tier == "quick" else 6000)
+        # a heterogeneous tissue: a large stiff cell first, then small ones with and without bending rigidity and with different moduli
+        # (per-type decisions that are cached, counted or raced for show when the cells differ)
+        base = tc.scenario("det", [dict(tc.cell(i, i * far, level=(2 if i % 2 == 0 else 1), growth=2e-11, K=(2.5e3 if i % 2 else 1e3)), kb=(2e-16 if i in (0, 3) else 0.0)) for i in range(5)],
+                           [], T_ns=2500 if tier == "quick" else 6000)
         runs = []
         for th in ([1, 2, 8, 8] if tier == "quick" else [1, 1, 2, 3, 5, 8, 16, 16]):
             runs.append(dict(base, name="det_t%d_%d" % (th, len(runs)), threads=th))
